@@ -124,3 +124,25 @@ Theorem C19_drain_before_die_refuted :
     In DriverDie evs /\ length (pending s') = 2%nat.
 Proof. exact drain_before_die_refuted. Qed.
 Print Assumptions C19_drain_before_die_refuted.
+
+(* Eventual delivery of a held-back JOIN, step-level part only (hence _partial):
+   a failed attempt keeps the JOIN queued and does not move its deadline
+   lastJoin + rateLimit.join; once the clock has reached the deadline, an
+   un-throttled poll that finds the JOIN at the head of the queue releases it.
+   The full statement (every accepted message is released by a long enough
+   steady-polling schedule) is not proved; it is checked on the implementation
+   by the polling-tail oracle of the harness. *)
+Theorem C19_join_not_starved_partial : forall c filt,
+  (forall now s s', dequeue c now s = (s', None) ->
+     lastJoin s' = lastJoin s /\ Permutation (qpending s') (qpending s)) /\
+  (forall s now e r,
+     fast s = [] -> hi s = [] -> no s = [] -> lo s = e :: r -> is_join e = true ->
+     (c_throttle c < now - lastTake s)%Z -> (lastJoin s + c_join c <= now)%Z ->
+     exists s1 evs k, take_body c filt s now = (s1, evs, k) /\ In (Took FromQueue e now) evs
+                      /\ lo s1 = r /\ lastJoin s1 = now).
+Proof.
+  intros c filt. split.
+  - exact (join_deadline_fixed c).
+  - exact (join_released_at_deadline c filt).
+Qed.
+Print Assumptions C19_join_not_starved_partial.
